@@ -37,8 +37,10 @@
       — hence, on the specification's encodings, the records as written — for every schema whose map values leave at
       most their own `RecordEnd` pending (`DOk`: primitives, enums, fixed, arrays, maps, unions of those, and records
       whose last field is one of those, as map values; records anywhere else), documents of the writer's shape
-      (`Fits`; proved of every specification encoding: `spec_fits`), with proper objects (`KeysOk`) and below the
-      model's iteration bound (`Small`), any depth, any number of documents;
+      (`Fits`; proved of every specification encoding: `spec_fits`) — in which a field may also be ABSENT when it has a
+      default of that shape: the machine then reads the default exactly as the function-level reader does, wrapped
+      under the first branch's label for a union field —, with proper objects (`KeysOk`) and below the model's
+      iteration bound (`Small`), any depth, any number of documents;
       `c15_machine_round_trip`: write then read on the machine gives the records as written;
     * `c15_machine_counterexample_map_of_nested_records` — outside `DOk` the machine really fails (finding F28):
       a map of records that end in a record is written, and read by the function-level reader, but `iter_map` pops
@@ -46,7 +48,9 @@
   NOT PROVED (checked by the harness on the implementation and against the model): agreement with the
   binary codec (C01's normal form differs from `Spec.written` only in single-precision rounding and
   int → float conversion under float/double), defaults of fields absent from a JSON text that
-  `json_writer` did not produce (the read-side theorems ask for every field to be present); the read side for maps
+  `json_writer` did not produce, measured against the SPECIFICATION's reading of a default (the read-side theorems
+  cover absent fields, but relative to the function-level reader, which decodes a default as if it were written text:
+  finding F27 is where the two differ); the read side for maps
   whose values are unions with a record branch, or records ending in a record (F28) — see known findings F5a–d, F14,
   F27, F28, F33.
 -/
@@ -297,3 +301,13 @@ example : DOk [] c15mapR := by
 example : (match decodeAll 8 [] c15mapR [.dict [(.str "k", .dict [(.str "c", .int 2)]), (.str "l", .dict [(.str "c", .int 3)])]] with
     | .ok [.dict [(.str "k", .dict [(.str "c", .int 2)]), (.str "l", .dict [(.str "c", .int 3)])]] => true
     | _ => false) = true := by decide +kernel
+
+/-! fields absent from the text: the machine fills in the defaults (a string, a null union, a record default completed by
+    its own field defaults) as the function-level reader does -/
+def c15dflt : Schema := .record "D" [.mk "a" (.prim .int false none) none [], .mk "b" (.prim .string false none) (some (.str "x")) [],
+  .mk "u" (.union [.prim .null false none, .prim .int false none]) (some .none) [],
+  .mk "r" (.record "In" [.mk "c" (.prim .int false none) (some (.int 7)) []] []) (some (.dict [])) []] []
+example : (match decodeAll 8 [] c15dflt [.dict [(.str "a", .int 1)]], Json.decode 8 [] c15dflt (.dict [(.str "a", .int 1)]) with
+    | .ok [.dict [(.str "a", .int 1), (.str "b", .str "x"), (.str "u", .none), (.str "r", .dict [(.str "c", .int 7)])]],
+      .ok (.dict [(.str "a", .int 1), (.str "b", .str "x"), (.str "u", .none), (.str "r", .dict [(.str "c", .int 7)])]) => true
+    | _, _ => false) = true := by decide +kernel
